@@ -240,19 +240,66 @@ mod k {
         header_roundtrip::<16, 1, 1>();
     }
 
-    /// VERIF: {"p":"C05","tier":"quick","fns":["dhcp::dhcppkt::parse","dhcp::dhcppkt::parse_options (pad/end only)","dhcp::dhcppkt::null_terminated","pktparser::Buffer::{get_u8,get_be16,get_be32,get_ipv4,get_vec,get_bytes}"],"bounds":"every truncation point 0..=241 of a fully symbolic 241-byte DHCP message (length symbolic, content symbolic); option area restricted to pad/end octets","oracle":"returns Ok or Err: no panic, overflow, out-of-bounds index or unbounded loop","stubs":["std::hash::RandomState::new -> fixed keys (map created, never filled)"],"covers":2,"unwind":130}
+    fn parse_len<const N: usize>() {
+        let mut pkt: [u8; N] = kani::any();
+        // keep the option area free of real options (they go through HashMap::entry - not reachable for Kani)
+        if N > 240 {
+            kani::assume(pkt[240] == 0 || pkt[240] == 255);
+        }
+        if N > 241 {
+            pkt[241] = 255;
+        }
+        let r = parse(&pkt);
+        if N < 241 {
+            assert!(r.is_err(), "a message shorter than header + magic + end marker is rejected");
+        }
+        kani::cover!(N < 241 || r.is_ok(), "accepted");
+        kani::cover!(N < 241 || matches!(r, Err(ParseError::InvalidPacket)), "hlen > 16 rejected");
+        kani::cover!(N < 241 || matches!(r, Err(ParseError::WrongMagic)), "wrong magic rejected");
+        std::mem::forget(r);
+    }
+
+    /// VERIF: {"p":"C05","tier":"quick","fns":["dhcp::dhcppkt::parse","pktparser::Buffer::{get_u8,get_be16,get_be32,get_ipv4,get_vec}"],"bounds":"truncation points {0,1,3,4,7,8,11,12,27,28,43,44} of a fully symbolic DHCP message (inside/at the end of every fixed field up to chaddr)","oracle":"returns Err (never panics, overflows or indexes out of bounds)","stubs":["std::hash::RandomState::new -> fixed keys"],"covers":3,"unwind":20}
+    #[kani::proof]
+    #[kani::unwind(20)]
+    #[kani::stub(std::hash::RandomState::new, fixed_random_state)]
+    fn c05_dhcp_parse_truncated_early() {
+        match kani::any::<u8>() {
+            0 => parse_len::<0>(),
+            1 => parse_len::<1>(),
+            2 => parse_len::<3>(),
+            3 => parse_len::<4>(),
+            4 => parse_len::<7>(),
+            5 => parse_len::<8>(),
+            6 => parse_len::<11>(),
+            7 => parse_len::<12>(),
+            8 => parse_len::<27>(),
+            9 => parse_len::<28>(),
+            10 => parse_len::<43>(),
+            _ => parse_len::<44>(),
+        }
+    }
+
+    /// VERIF: {"p":"C05","tier":"quick","fns":["dhcp::dhcppkt::parse","dhcp::dhcppkt::null_terminated","pktparser::Buffer::get_vec"],"bounds":"truncation points {107,108,235,236,239,240} of a fully symbolic DHCP message (inside/at the end of sname, file, magic; missing end marker)","oracle":"returns Err (never panics)","stubs":["std::hash::RandomState::new -> fixed keys"],"covers":3,"unwind":130}
+    #[kani::proof]
+    #[kani::unwind(130)]
+    #[kani::stub(std::hash::RandomState::new, fixed_random_state)]
+    fn c05_dhcp_parse_truncated_late() {
+        match kani::any::<u8>() {
+            0 => parse_len::<107>(),
+            1 => parse_len::<108>(),
+            2 => parse_len::<235>(),
+            3 => parse_len::<236>(),
+            4 => parse_len::<239>(),
+            _ => parse_len::<240>(),
+        }
+    }
+
+    /// VERIF: {"p":"C05","tier":"quick","fns":["dhcp::dhcppkt::parse","dhcp::dhcppkt::parse_options (pad/end only)","dhcp::dhcppkt::null_terminated","pktparser::Buffer::*"],"bounds":"complete 241-octet message, every header octet symbolic (all hlen 0..255, any sname/file contents, any magic); option area = one pad-or-end octet","oracle":"returns Ok or Err: no panic (chaddr[0..hlen] slice, NUL search), hlen > 16 rejected","stubs":["std::hash::RandomState::new -> fixed keys (map created, never filled)"],"covers":3,"unwind":130}
     #[kani::proof]
     #[kani::unwind(130)]
     #[kani::stub(std::hash::RandomState::new, fixed_random_state)]
     fn c05_dhcp_parse_header_any_bytes() {
-        let pkt: [u8; 241] = kani::any();
-        let len: usize = kani::any();
-        kani::assume(len <= 241);
-        // keep the option area free of real options (they go through HashMap::entry - not reachable for Kani)
-        kani::assume(pkt[240] == 0 || pkt[240] == 255);
-        let r = parse(&pkt[..len]);
-        kani::cover!(r.is_ok(), "accepted");
-        kani::cover!(matches!(r, Err(ParseError::InvalidPacket)), "hlen > 16 rejected");
-        std::mem::forget(r);
+        parse_len::<241>();
     }
 }
